@@ -188,6 +188,7 @@ def _schd(paused):
     return SimpleNamespace(
         uuid_str='uuid-1', is_paused=paused, stop_clock_time=None,
         stop_task=None,
+        pool=SimpleNamespace(stop_task_id=None),
         config=SimpleNamespace(
             cycle_point_dump_format='CCYY', initial_point='1'),
         options=SimpleNamespace(
